@@ -1210,9 +1210,26 @@ void Parser::maybeAmbiguateCastExpression(ExpressionSyntax*& expr)
     if (!(typeName->specs_
             && typeName->specs_->value->kind() == SyntaxKind::TypedefName
             && !typeName->specs_->next
-            && typeName->decltor_
-            && typeName->decltor_->kind() == SyntaxKind::AbstractDeclarator))
+            && typeName->decltor_))
         return;
+
+    // With an array or function (abstract) declarator after the name, the
+    // parenthesized tokens may be an expression as well: `(x[1]) & y',
+    // `(f(x)) - y'.
+    ExpressionSyntax* parenExprOfTokens = nullptr;
+    if (typeName->decltor_->kind() != SyntaxKind::AbstractDeclarator) {
+        auto tkIdx = curTkIdx_;
+        bool parsed;
+        {
+            Backtracker BT(this);
+            curTkIdx_ = castExpr->openParenTkIdx_;
+            parsed = parseParenthesizedExpression_AtFirst(parenExprOfTokens)
+                        && curTkIdx_ == castExpr->closeParenTkIdx_ + 1;
+            curTkIdx_ = tkIdx;
+        }
+        if (!parsed)
+            return;
+    }
 
     SyntaxKind binExprK;
     switch (prefixExpr->kind()) {
@@ -1240,15 +1257,19 @@ void Parser::maybeAmbiguateCastExpression(ExpressionSyntax*& expr)
             PSY_ASSERT_3(false, return, "");
     }
 
-    auto nameExpr = makeNode<IdentifierNameSyntax>();
-    nameExpr->identTkIdx_ =
-            typeName->specs_->value->asTypedefName()->identTkIdx_;
-    auto parenExpr = makeNode<ParenthesizedExpressionSyntax>();
-    parenExpr->expr_ = nameExpr;
-    parenExpr->openParenTkIdx_ = castExpr->openParenTkIdx_;
     auto binExpr = makeNode<BinaryExpressionSyntax>(binExprK);
-    binExpr->leftExpr_ = parenExpr;
-    parenExpr->closeParenTkIdx_ = castExpr->closeParenTkIdx_;
+    if (parenExprOfTokens)
+        binExpr->leftExpr_ = parenExprOfTokens;
+    else {
+        auto nameExpr = makeNode<IdentifierNameSyntax>();
+        nameExpr->identTkIdx_ =
+                typeName->specs_->value->asTypedefName()->identTkIdx_;
+        auto parenExpr = makeNode<ParenthesizedExpressionSyntax>();
+        parenExpr->expr_ = nameExpr;
+        parenExpr->openParenTkIdx_ = castExpr->openParenTkIdx_;
+        parenExpr->closeParenTkIdx_ = castExpr->closeParenTkIdx_;
+        binExpr->leftExpr_ = parenExpr;
+    }
     binExpr->oprtrTkIdx_ = prefixExpr->oprtrTkIdx_;
     binExpr->rightExpr_ = prefixExpr->expr_;
 
